@@ -37,6 +37,20 @@ def scan_source():
     t["setop_full_type_equality"] = 1 if m else None
     m = re.search(r"if left_types\.len\(\) != right_types\.len\(\) \{\s*return Err", so)
     t["setop_arity_check"] = 1 if m else None
+    # the decimal rule of set operations (2b1fb11f8) as written, and the two MAX_PRECISION constants it uses
+    m = re.search(r"let scale = i8::max\(l\.scale, r\.scale\);\s*let int_digits = i16::max\(\s*l\.precision as i16 - l\.scale as i16,\s*r\.precision as i16 - r\.scale as i16,\s*\);"
+                  r"\s*let prec = i16::clamp\(\s*int_digits \+ scale as i16,\s*1,\s*Decimal128Type::MAX_PRECISION as i16,\s*\) as u8;"
+                  r".*?if prec <= Decimal64Type::MAX_PRECISION\s*&& left\.id\(\) == DataTypeId::Decimal64\s*&& right\.id\(\) == DataTypeId::Decimal64"
+                  r".*?left_needs_cast = left_needs_cast \|\| left != output;\s*right_needs_cast = right_needs_cast \|\| right != output;", so, re.S)
+    t["setop_decimal_rule"] = 1 if m else None
+    try:
+        dc = open(os.path.join(common.REPO, "crates/glaredb_core/src/arrays/scalar/decimal.rs")).read()
+    except FileNotFoundError:
+        dc = ""
+    m = re.search(r"impl DecimalType for Decimal64Type \{.*?const MAX_PRECISION: u8 = (\d+);", dc, re.S)
+    t["dec64_max_precision"] = int(m.group(1)) if m else None
+    m = re.search(r"impl DecimalType for Decimal128Type \{.*?const MAX_PRECISION: u8 = (\d+);", dc, re.S)
+    t["dec128_max_precision"] = int(m.group(1)) if m else None
     # how the final choice is made (recorded in the evidence; the model exposes the set of maximal candidates)
     t["uses_sort_unstable_by"] = 1 if re.search(r"candidates\.sort_unstable_by\(", src) else 0
     return t
@@ -76,13 +90,15 @@ def render(d, src):
              "Import ListNotations.", "Open Scope string_scope.", "Open Scope N_scope.", "",
              "Definition type_names : list string := [%s]." % "; ".join(_qs(n) for n in names),
              "Definition n_types : N := %d." % len(names)]
-    for k, n in (("tid_any", "Any"), ("tid_i8", "Int8"), ("tid_i16", "Int16"), ("tid_i32", "Int32"), ("tid_i64", "Int64")):
+    for k, n in (("tid_any", "Any"), ("tid_i8", "Int8"), ("tid_i16", "Int16"), ("tid_i32", "Int32"), ("tid_i64", "Int64"), ("tid_dec64", "Decimal64"), ("tid_dec128", "Decimal128")):
         lines.append("Definition %s : option N := %s." % (k, _optn(tid(n))))
     for k in ("no_cast_score", "refined_literal_bonus", "default_score_i8", "default_score_i16", "default_score_i32", "default_score_i64"):
         lines.append("Definition %s : option N := %s." % (k, _optn(d.get(k))))
     lines.append("Definition variadic_same_score : option N := %s." % _optn(src.get("variadic_same_score")))
     lines.append("Definition setop_full_type_equality : option N := %s." % _optn(src.get("setop_full_type_equality")))
     lines.append("Definition setop_arity_check : option N := %s." % _optn(src.get("setop_arity_check")))
+    for k, nm in (("setop_decimal_rule", "setop_decimal_rule"), ("dec64_max_precision", "src_dec64_max_precision"), ("dec128_max_precision", "src_dec128_max_precision")):
+        lines.append("Definition %s : option N := %s." % (nm, _optn(src.get(k))))
     lines.append("Definition score_table : list (list (option N)) := [")
     lines.append(";\n".join("  [%s]" % "; ".join(_optn(x) for x in row) for row in d["scores"]))
     lines.append("].")
